@@ -490,7 +490,7 @@ def tsan_pass(ctx, cases, run_model, run_spec):
 
 
 CORPUS = [
-    # fixed 6bcc387: the main thread collects (its stack holds the managed Thread objects) while the workers'
+    # fixed f2b0c3a: the main thread collects (its stack holds the managed Thread objects) while the workers'
     # TLS tables grow, rehash and shrink — Thread_Mark used to walk the foreign tables (ValueError / SIGSEGV
     # in the collecting thread, lost TLS bindings in the workers)
     '1g|0|S1 S2 S3 S4 w7,2000 J1 J2 J3 J4 P1|w6,300 e1|w6,300 e2|w6,300 e3|w6,300 e4',
